@@ -558,13 +558,20 @@ def rule_position_independence(rep: Report, repo: Repo, rule: str) -> None:
         for q, fn in repo.functions(mod):
             # locals holding positions
             pos_locals: Set[str] = set()
+            for _round in range(6):             # transitively: a local computed from a position (or from such a local)
+                before = len(pos_locals)
+                for node in walk_no_nested(fn):
+                    if isinstance(node, (ast.Assign, ast.AugAssign, ast.AnnAssign)) and node.value is not None and \
+                            (_has_pos(node.value) or _reads_pos_local(node.value, pos_locals)):
+                        for t in (node.targets if isinstance(node, ast.Assign) else [node.target]):
+                            if isinstance(t, ast.Name):
+                                pos_locals.add(t.id)
+                if len(pos_locals) == before:
+                    break
             for node in walk_no_nested(fn):
-                if isinstance(node, ast.Assign) and _has_pos(node.value):
-                    for t in node.targets:
-                        if isinstance(t, ast.Name):
-                            pos_locals.add(t.id)
-            for node in walk_no_nested(fn):
-                is_pos = _is_pos_node(node) or (isinstance(node, ast.Name) and node.id in pos_locals and isinstance(node.ctx, ast.Load))
+                is_pos = _is_pos_node(node, mm.parents.get(node)) or \
+                    (isinstance(node, ast.Name) and node.id in pos_locals and isinstance(node.ctx, ast.Load)
+                     and not (isinstance(mm.parents.get(node), ast.Attribute) and mm.parents.get(node).attr in TOKEN_CONTENT))
                 if not is_pos:
                     continue
                 # walk up: must be within logging call / exception ctor / raise / assignment to pos local
@@ -584,7 +591,7 @@ def rule_position_independence(rep: Report, repo: Repo, rule: str) -> None:
                     if isinstance(par, ast.Assign) and all(isinstance(t, ast.Name) for t in par.targets):
                         ok = True       # its uses are checked through pos_locals
                         break
-                    if isinstance(par, ast.Attribute) and par.attr in POS_ATTRS and _is_pos_node(par):
+                    if isinstance(par, ast.Attribute) and par.attr in POS_ATTRS and _is_pos_node(par, mm.parents.get(par)):
                         # inner part of ctx.start.line: judged at the outermost attribute
                         ok = True
                         break
@@ -593,20 +600,55 @@ def rule_position_independence(rep: Report, repo: Repo, rule: str) -> None:
                 rep.check(ok, rule, f"{mod}:{q}", norm(node)[:60],
                           "a source position flows into the documentation: re-indenting or adding blank lines changes the output",
                           witness="the same module with an extra blank line at the top")
-    rep.floor(rule, 4, "position uses")
+    rep.floor(rule, 1, "position uses")
 
 
-def _is_pos_node(node) -> bool:
-    if isinstance(node, ast.Attribute) and node.attr in POS_ATTRS:
+TOKEN_CONTENT = {"text", "type", "channel", "getText"}
+
+
+def _token_valued(node) -> bool:
+    """ctx.start / ctx.stop / <terminal>.symbol / getSymbol() / getStart() ...: a token object (position and text)."""
+    if isinstance(node, ast.Attribute) and node.attr in ("start", "stop", "symbol"):
         base = norm(node.value)
-        return "ctx" in base or "token" in base.lower() or base.endswith(".start") or base.endswith(".stop") or base.endswith(")")
-    if isinstance(node, ast.Call) and isinstance(node.func, ast.Attribute) and node.func.attr in POS_CALLS:
+        return node.attr == "symbol" or "ctx" in base or "token" in base.lower() or base.endswith(")") or \
+            not isinstance(node.value, ast.Attribute)
+    return isinstance(node, ast.Call) and isinstance(node.func, ast.Attribute) and \
+        node.func.attr in ("getSymbol", "getStart", "getStop", "getPayload")
+
+
+def _is_pos_node(node, parent=None) -> bool:
+    if isinstance(node, ast.Attribute) and node.attr in ("line", "column", "tokenIndex", "charPositionInLine"):
+        return True            # whatever the token / context is called
+    if isinstance(node, ast.Attribute) and node.attr in ("start", "stop") and _token_valued(node.value):
+        return True            # token.start / token.stop: character offsets
+    if _token_valued(node):
+        # a token object: only its text / type may be used without carrying the position along
+        return not (isinstance(parent, ast.Attribute) and parent.value is node and
+                    (parent.attr in TOKEN_CONTENT or parent.attr in POS_ATTRS))
+    if isinstance(node, ast.Call) and isinstance(node.func, ast.Attribute) and node.func.attr in POS_CALLS \
+            and node.func.attr not in ("getSymbol", "getStart", "getStop", "getPayload"):
         return True
     return False
 
 
+def _reads_pos_local(e, pos_locals) -> bool:
+    """a load of a position-carrying local, other than reading the text / type of a token held in it"""
+    if isinstance(e, ast.Name) and e.id in pos_locals:
+        return True
+    for par in ast.walk(e):
+        for ch in ast.iter_child_nodes(par):
+            if isinstance(ch, ast.Name) and ch.id in pos_locals and isinstance(ch.ctx, ast.Load) \
+                    and not (isinstance(par, ast.Attribute) and par.attr in TOKEN_CONTENT):
+                return True
+    return False
+
+
 def _has_pos(e) -> bool:
-    return any(_is_pos_node(n) for n in ast.walk(e))
+    for par in ast.walk(e):
+        for ch in ast.iter_child_nodes(par):
+            if _is_pos_node(ch, par):
+                return True
+    return _is_pos_node(e, None)
 
 
 def rule_case_folding(rep: Report, repo: Repo, rule: str) -> None:
